@@ -1,12 +1,12 @@
 SPECIFICATION Spec
 CONSTANTS
-  MaxNodes = 3
+  MaxNodes = 5
   Keys = {"k1"}
   Vals = {"v1"}
-  Deadlines = {1, 2, 3}
+  Deadlines = {}
   Timeouts = {}
-  MaxNow = 3
-  Kinds = {"cancel", "deadline"}
+  MaxNow = 1
+  Kinds = {"cancel", "value"}
   Deviation = "none"
 INVARIANTS Inv
 PROPERTIES Sticky CancelExact Idempotent Immutable
